@@ -604,6 +604,15 @@ def _run_item(item, col, tier):
                         except Exception as exc:  # noqa: BLE001
                             col.refused += 1
                             col.outcome("refused", op[0], type(exc).__name__)
+                            # a stage whose conditions / samples the mapping it CARRIES can no longer number ("Mapping of
+                            # ... to ids failed" from the Screen constructor) has lost a condition it knew: the mapping
+                            # shrank on the way (reported once per state; other refusals are no statement about ids)
+                            if "Mapping of" in str(exc) and exception_origin_in_repo(exc) and canon(state) not in bad_states:
+                                bad_states.add(canon(state))
+                                hist = histories.get(canon(state), []) + [list(op)]
+                                case = {"item": item, "choices": _ch.choices, "half": _half, "history": hist}
+                                col.violation(f"C03|mapping-lost-a-condition|{op[0]}", f"{_half} half, answers {_ch.choices}, history {[op_name(tuple(o)) for o in hist]}: "
+                                              f"the next stage cannot be built from the mapping the stage carries: {type(exc).__name__}: {exc}", case)
                             continue
                         col.transitions += 1
                         col.count("op:" + op[0])
